@@ -1,8 +1,53 @@
 import SLModel.Drv.Util
+import SLModel.Core.Suggest
 open Lean
 namespace SL.Drv.C22
+open SL.Drv SL.Suggest
 
-/-- stub: no model operations for C22 yet -/
-def handle (_req : Json) : Except String Json := .error "C22: not implemented"
+/-- byte order of UTF-8 text = code-point order of the character lists -/
+def ltText (a b : List Char) : Bool := decide (a < b)
+
+def dictOf (j : Json) : Except String (Dict Char) := do
+  let a ← j.getArr?
+  a.toList.mapM (fun row => do
+    let r ← row.getArr?
+    match r.toList with
+    | [t, d] => return ((← t.getStr?).toList, ← d.getNat?)
+    | _ => throw "dict entry: expected [term, df]")
+
+def fuzzyOf (j : Json) : Except String FuzzyOpts := do
+  return { maxEdits := ← getNat j "max_edits", prefixLength := ← getNat j "prefix_length",
+           maxExpansions := ← getNat j "max_expansions", minLength := ← getNat j "min_length" }
+
+def candJson (c : Cand Char) : Json :=
+  Json.mkObj [("text", String.ofList c.term), ("doc_freq", c.df), ("score6", c.score6)]
+
+/-- `{"op":"suggest","segs":[[["term",df],…],…],"input":"…","size":n,"fuzzy":null|{…}}` →
+`{"options":[{"text","doc_freq","score6"}…],"all":[…same, before the size cut…]}`;
+`{"op":"lev","a":"…","b":"…","k":n}` → `{"lev":n,"bounded":n|null}` -/
+def handle (req : Json) : Except String Json := do
+  let op ← getStr req "op"
+  match op with
+  | "suggest" =>
+    let segs ← (← getArr req "segs").toList.mapM dictOf
+    let input := (← getStr req "input").toList
+    let size ← getNat req "size"
+    let fz ← match getOpt req "fuzzy" with
+      | none => pure none
+      | some j => (fuzzyOf j).map some
+    let opts := suggest ltText segs input size fz
+    let all := sortBy (before ltText) (collect segs input size fz)
+    return Json.mkObj [
+      ("options", Json.arr (opts.map candJson).toArray),
+      ("all", Json.arr (all.map candJson).toArray)]
+  | "lev" =>
+    let a := (← getStr req "a").toList
+    let b := (← getStr req "b").toList
+    let k ← getNat req "k"
+    let bl : Json := match boundedLev a b k with
+      | none => Json.null
+      | some d => (d : Json)
+    return Json.mkObj [("lev", lev a b), ("bounded", bl)]
+  | _ => throw s!"C22: unknown op {op}"
 
 end SL.Drv.C22
